@@ -344,7 +344,13 @@ func init() {
 			bound = 3
 		}
 		c.Cov["rule"] = "concurrent part: every schedule (thread switches and virtual-clock advances) with at most `preemption_bound_completed` deviations of every lock program (2-3 contenders; Lock with/without timeout and deadline, Unlock, Lease, virtual sleeps; entry-point tuples); oracle on virtual time stamps: certain-hold intervals of different holders never overlap, Lock gives up no earlier than its deadline, own unlock of an untimed lock succeeds; non-trivial = executions with at least one deviation"
-		schedmc.RunFamily(c, "C08", bound, 1, 0)
+		shards, maxExecs := 1, 0
+		if c.Tier == "thorough" {
+			// heavy programs are split over 4 workers; a (program, shard) exploration that reaches
+			// 150000 executions stops there and the check reports exhaustive:false
+			shards, maxExecs = 4, 150000
+		}
+		schedmc.RunFamily(c, "C08", bound, shards, maxExecs)
 		c.Cov["traces_validated_against_impl"] = 0
 		c.Assumef("time is the virtual clock: it advances 1ns per time.Now() and otherwise only by explicit scheduler transitions; ttl resolution is 1ms and the oracle allows that much")
 	}})
